@@ -605,7 +605,9 @@ func checkC10(c *Ctx) {
 			n++
 			facts := fl.At(s)
 			okKauri := falseOf(facts, func(k string) bool { return strings.HasPrefix(k, "(*hs/core.RuntimeConfig).HasKauriTree(") }) ||
-				trueOf(facts, func(k string) bool { return strings.HasPrefix(k, "(*hs/core.RuntimeConfig).ReplicaInfo(") && strings.Contains(k, "ProposerID(") && strings.HasSuffix(k, "#1") })
+				trueOf(facts, func(k string) bool {
+					return strings.HasPrefix(k, "(*hs/core.RuntimeConfig).ReplicaInfo(") && strings.Contains(k, "ProposerID(") && strings.HasSuffix(k, "#1")
+				})
 			// path-sensitive alternative: no path from the "HasKauriTree is true" edge reaches the use without the ReplicaInfo ok edge
 			if !okKauri {
 				w := cfgSearch(fl, nil, pr.Blocks[0], func(in ssa.Instruction) bool { return in == ssa.Instruction(s) }, nil, func(fs []Fact) bool {
@@ -641,18 +643,18 @@ func checkC10(c *Ctx) {
 func c10Panics(c *Ctx, scope map[*ssa.Function]bool) {
 	p := c.P
 	exempt := map[string]string{
-		"(*hs/internal/proto/clientpb.Batch).Marshal":                      "deterministic marshalling of an already decoded batch cannot fail",
-		"(hs/security/crypto.Multi[*hs/security/crypto.ECDSASignature]).Add": "IDSet.Add is never called on a signature's participant set on the receive path (no caller in scope)",
-		"(hs/security/crypto.Multi[*hs/security/crypto.EDDSASignature]).Add": "as above",
-		"(*hs/security/crypto.ECDSA).privateKey":                           "assertion on the replica's own configured key",
-		"(*hs/security/crypto.EDDSA).privateKey":                           "assertion on the replica's own configured key",
-		"(*hs/security/crypto.bls12Base).privateKey":                       "assertion on the replica's own configured key",
-		"(*hs/security/crypto.ECDSA).verifySingle":                         "assertion on the configured public key of a known replica",
-		"(*hs/security/crypto.EDDSA).verifySingle":                         "assertion on the configured public key of a known replica",
-		"(*hs/security/crypto.bls12Base).checkPop":                         "assertion on the configured public key of a known replica (publicKey checked the type first)",
-		"(*hs/security/crypto.bls12Base).popProve":                         "assertion on the replica's own key",
-		"(*hs/security/cert.Cache).evict":                                  "assertion on a value the cache itself stored",
-		"hs/core/eventloop.Register":                                       "the event loop dispatches by reflect.Type, so the assertion to T cannot fail",
+		"(*hs/internal/proto/clientpb.Batch).Marshal":                          "deterministic marshalling of an already decoded batch cannot fail",
+		"(hs/security/crypto.Multi[*hs/security/crypto.ECDSASignature]).Add":   "IDSet.Add is never called on a signature's participant set on the receive path (no caller in scope)",
+		"(hs/security/crypto.Multi[*hs/security/crypto.EDDSASignature]).Add":   "as above",
+		"(*hs/security/crypto.ECDSA).privateKey":                               "assertion on the replica's own configured key",
+		"(*hs/security/crypto.EDDSA).privateKey":                               "assertion on the replica's own configured key",
+		"(*hs/security/crypto.bls12Base).privateKey":                           "assertion on the replica's own configured key",
+		"(*hs/security/crypto.ECDSA).verifySingle":                             "assertion on the configured public key of a known replica",
+		"(*hs/security/crypto.EDDSA).verifySingle":                             "assertion on the configured public key of a known replica",
+		"(*hs/security/crypto.bls12Base).checkPop":                             "assertion on the configured public key of a known replica (publicKey checked the type first)",
+		"(*hs/security/crypto.bls12Base).popProve":                             "assertion on the replica's own key",
+		"(*hs/security/cert.Cache).evict":                                      "assertion on a value the cache itself stored",
+		"hs/core/eventloop.Register":                                           "the event loop dispatches by reflect.Type, so the assertion to T cannot fail",
 		"(*hs/core/eventloop.pool[[]hs/core/eventloop.EventHandler[any]]).Get": "assertion on a value the pool itself stored (sync.Pool with a typed New)",
 		"(*hs/protocol/leaderrotation.RepBased).GetLeader":                     "assertions on wr.Choice items that the same function stored as hotstuff.ID",
 		"(*hs/twins.emulatedSender).sendMessage":                               "test-network emulator of the twins package, not a production transport; it panics on a harness programming error",
